@@ -4,7 +4,7 @@
    Model/Icmp6SpoofKnown.v (what "exactly" means field by field; recorded classes).
    Spec: Spec/RFC4861.v (independent RA decoder). *)
 From PV Require Import Base.Prelude Base.Text Model.Icmp6SpoofRA Model.Icmp6Spoof Spec.RFC4861 Model.Icmp6SpoofKnown
-  Proofs.Icmp6SpoofRA Proofs.Icmp6SpoofDnssl Proofs.Icmp6Spoof Proofs.Icmp6SpoofStop Proofs.Icmp6SpoofDecided.
+  Proofs.Icmp6SpoofRA Proofs.Icmp6SpoofDnssl Proofs.Icmp6Spoof Proofs.Icmp6SpoofStop Proofs.Icmp6SpoofDecided Proofs.Icmp6SpoofRefine Proofs.Icmp6SpoofAudit.
 From Coq Require Import Permutation.
 Open Scope N_scope.
 
@@ -254,3 +254,49 @@ Example C14_lenient_nonvacuous :
      ra_decode_lenient wit_rej = None /\ ra_options wit_rej = Err EOther).
 Proof. exact lenient_nonvacuous. Qed.
 Print Assumptions C14_lenient_nonvacuous.
+
+(* ------------------------------------------------------------------ *)
+(* Clause audit (round 7).
+   Confinement: a MAC that no StartHunt of the history names never receives a forged advertisement
+   (any history: several hosts, several addresses per host, Lookup = timer tick or RA wake-up, RA and
+   other ICMPv6 arrivals, Close) — in particular not us and not a router unless the caller hunts them. *)
+Theorem C14_never_unhunted : forall c rep evs m, no_start m evs ->
+  forall s e l, In (s, e, ONAs l) (fst (run c (init rep) evs)) -> forall n, In n l -> bytes_eqb (na_eth_dst n) m = false.
+Proof. exact never_unhunted. Qed.
+Print Assumptions C14_never_unhunted.
+
+(* StartHunt does not refuse our own MAC or a learned router's MAC: "never us / never the router to
+   itself" is false of the code as an unconditional statement (it is the caller's obligation; the
+   property text asks only for "MACs in its hunt list") *)
+Theorem C14_never_self_refuted : exists c rep evs s e n,
+  In (s, e, ONAs [n]) (fst (run c (init rep) evs)) /\ na_eth_dst n = host_mac c.
+Proof. exact never_self_refuted. Qed.
+Print Assumptions C14_never_self_refuted.
+
+Theorem C14_never_router_refuted : exists c rep evs s e n r,
+  In (s, e, ONAs [n]) (fst (run c (init rep) evs)) /\ rt_find (routers s) (na_target n) = Some r /\ na_eth_dst n = r_mac r.
+Proof. exact never_router_refuted. Qed.
+Print Assumptions C14_never_router_refuted.
+
+(* "Routers are learned exactly" as a refinement: the router table abstracted to the map
+   source address -> {MAC, flags, preference, hop limit, lifetimes, source LLA, MTU, prefixes, routes,
+   RDNSS, DNSSL} evolves under EVERY event as the abstract table that applies the independent RFC 4861
+   decoder to the processed advertisements: an update replaces (nothing accumulates), a zero router
+   lifetime is recorded and the entry kept, a rejected or unprocessed advertisement changes nothing,
+   no other event touches the table. *)
+Theorem C14_router_refinement : forall c st e, ev_ok e -> abs (fst (step c st e)) = spec_step (abs st) e.
+Proof. exact refinement. Qed.
+Print Assumptions C14_router_refinement.
+
+Theorem C14_router_refinement_run : forall c evs st, Forall ev_ok evs ->
+  abs (snd (run c st evs)) = spec_run (abs st) evs.
+Proof. exact refinement_run. Qed.
+Print Assumptions C14_router_refinement_run.
+
+Example C14_router_refinement_nonvacuous :
+  Forall ev_ok ex_refine_hist /\
+  exists a, tb_find (fst (spec_run (abs (init 3)) ex_refine_hist)) ex_src = Some a /\
+    ab_life a = 0 /\ ab_mtu a = 0 /\ List.length (ab_prefixes a) = 1%nat /\ ab_rdnss a = [] /\
+    ab_mac a = [170;187;204;221;238;255].
+Proof. exact refinement_nonvacuous. Qed.
+Print Assumptions C14_router_refinement_nonvacuous.
